@@ -117,6 +117,35 @@ def cases(ctx):
         st = rng.randrange(1, 5)
         yield from emit(st, rng.randrange(2), rng.randrange(1024), rng.randrange(2), rng.randrange(1024), rng.randrange(2),
                         rng.randrange(2), rng.randrange(512), "st%d-rand" % st)
+    # one field at a time on a fixed background (same address, same other bits): consecutive calls on frames that differ
+    # in a single field's low bits — a result cached under a key that leaves out part of the ME field shows up here
+    import random as _random
+
+    def emit_fixed(seed, st, s_ew, v_ew, s_ns, v_ns, vrsrc, s_vr, vr, tag):
+        r = _random.Random(seed)
+        f = [(5, 3, st), (13, 1, s_ew), (14, 10, v_ew), (24, 1, s_ns), (25, 10, v_ns), (35, 1, vrsrc), (36, 1, s_vr), (37, 9, vr)]
+        m = hex_of(spec.adsb_frame(r, 19, f, df=17), "upper")
+        e = vel_spec(st, s_ew, v_ew, s_ns, v_ns, vrsrc, s_vr, vr)
+        info = dict(st=st, v_ew=v_ew, v_ns=v_ns)
+        yield dict(op="airborne_velocity " + m, real=("pyModeS.adsb.velocity", [m], {"source": True}), expect=e, tag=tag, info=info,
+                   trivial=(e == "None"))
+        e4 = e if e == "None" else "|".join(e.split("|")[:4])
+        yield dict(op=None, real=("pyModeS.adsb.velocity", [m]), expect=e4, tag=tag + "-4", info=info, trivial=(e == "None"))
+
+    for k in range(ctx.n(40, 400)):
+        seed = rng.getrandbits(32)
+        st = rng.randrange(1, 5)
+        base = dict(s_ew=rng.randrange(2), v_ew=rng.randrange(8, 1016), s_ns=rng.randrange(2), v_ns=rng.randrange(8, 1016),
+                    vrsrc=rng.randrange(2), s_vr=rng.randrange(2), vr=rng.randrange(8, 504))
+        for fld, width in (("vr", 9), ("v_ns", 10), ("v_ew", 10)):
+            lo = base[fld] & ~7
+            order = list(range(lo, lo + 8))
+            rng.shuffle(order)
+            for v in order + [base[fld] ^ (1 << (width - 1))]:
+                yield from emit_fixed(seed, st, **dict(base, **{fld: v}), tag="sweep-" + fld)
+        for fld in ("s_ew", "s_ns", "vrsrc", "s_vr"):
+            for v in (0, 1, 0):
+                yield from emit_fixed(seed, st, **dict(base, **{fld: v}), tag="sweep-" + fld)
     # reserved subtypes 0, 5, 6, 7: model correspondence only (the property pins subtypes 1-4)
     for st in (0, 5, 6, 7):
         for _ in range(20):
